@@ -29,7 +29,9 @@ HOOKS_REQUIRED = ["h5py_File_write_dict"]
 RULE = ("seeded class-based zoo over 34 classes (7 core labelled-matrix base classes, 2 genotype, 3 breeding-value, 4 coancestry, 9 variance-matrix incl. the "
         "generic square taxa-trait base, 2 genetic-map, 3 genomic-model, 2 phenotyping classes); per object: optional label "
         "arrays present/absent, taxa/variants grouped/ungrouped, 1-3 traits, label alphabets ASCII / non-ASCII / with "
-        "separators, sorted / unsorted label order, NaN data, standardised / arbitrary location-scale; group paths None / "
+        "separators, sorted / unsorted label order, NaN data, standardised / arbitrary location-scale; table readers told "
+        "their columns by name / by integer position / mixed, trait columns inferred or listed explicitly, label columns "
+        "moved to other places of the frame, optional label columns switched off on both sides; group paths None / "
         "nested / trailing slash / non-ASCII / with spaces; file given as str / Path / open h5py.File; write histories of "
         "2-4 objects on one location (richer->poorer, poorer->richer, same, cross-class); multi-step sessions through one "
         "caller-owned open h5py.File (2-3 groups written, read back - some twice -, overwritten, read again; handle checked "
@@ -39,7 +41,8 @@ RULE = ("seeded class-based zoo over 34 classes (7 core labelled-matrix base cla
         "non-trivial when the object has more than one entry on some labelled axis; distinct = digest of the object's "
         "observation plus the route/options.")
 ASSUME = [
-    "matching options: the reader is given exactly the options the writer was given (column names, units, spline "
+    "matching options: the reader is given exactly the options the writer was given (column names - or, equivalently, the "
+    "integer positions of those columns in the table, for all or some of the column options -, units, spline "
     "settings, auto_group/auto_build_spline matching the source's state, gpmod passed to the phenotyping readers, "
     "model_name/hyperparams passed to the data-frame readers of genomic models, location/scale passed to the breeding-value "
     "data-frame reader when stored values are written, float_precision='round_trip' for CSV readers that forward it)",
@@ -541,7 +544,7 @@ def guarded(ctx, site, fmt, coords, fn, witness=None):
 
 
 def judge(ctx, clause, site, src_obs, got_obs, meta, coords, fmt, tol=None, skip=(), extra=None, cats=OE.CATS, note="",
-          prefix=None):
+          prefix=None, icls_override=None):
     """One evaluation per category; key = clause|site|category relation|input class of that category."""
     d = OE.diff(src_obs, got_obs, tol=tol, skip=skip)
     if tol is not None:     # routes compared with a tolerance: report how much of it was used
@@ -563,7 +566,7 @@ def judge(ctx, clause, site, src_obs, got_obs, meta, coords, fmt, tol=None, skip
         if not fields and not (cat == "params" and "__class__" in [x[0] for x in by_cat.get(cat, [])]):
             continue
         bad = by_cat.get(cat, [])
-        icls = icls_for(cat, meta)
+        icls = icls_override or icls_for(cat, meta)
         ctx.check(clause, not bad, site, REL[cat] + note, icls if prefix is None else "%s/%s" % (prefix, icls),
                   what=None if not bad else "%s: %s after %s: %s" % (site, REL[cat], fmt, "; ".join("%s: %s" % b for b in bad)[:400]),
                   witness=None if not bad else dict(extra or {}, source=_wit(src_obs), got=_wit(got_obs), differing=bad),
@@ -705,6 +708,99 @@ def table_options(g, spec):
     return wk, rk, skip, tol, route
 
 
+COLUMN_LIST_KEYS = ("taxa_colnames", "taxa_grp_colnames", "trait_colnames")
+
+
+def column_option_keys(rk):
+    """Reader options that designate columns (by name or by integer position)."""
+    return [k for k in rk if k.endswith("_col") or k in COLUMN_LIST_KEYS or k == "value_colname"]
+
+
+def label_columns(kind, wk):
+    """Names of the label (non-value) columns a wide table was written with; their place among the value columns is free."""
+    return [v for k, v in wk.items() if k in ("taxa_col", "taxa_grp_col") and isinstance(v, str)]
+
+
+def switch_off_optional(g, spec, wk, rk, skip):
+    """Optional label columns may be switched off on BOTH sides (None): the field is then deliberately not exported."""
+    kind, o = spec.kind, spec.obj
+    off = []
+    if kind in BV_CLASSES:
+        if wk.get("taxa_col") is not None and g.random() < 0.15:
+            wk["taxa_col"] = rk["taxa_col"] = None; skip.add("taxa"); off.append("taxa")
+        if wk.get("taxa_grp_col") is not None and g.random() < 0.15:
+            wk["taxa_grp_col"] = rk["taxa_grp_col"] = None; skip.add("taxa_grp"); off.append("taxa_grp")
+    elif kind in CMAT_CLASSES:
+        if wk.get("taxa_grp_col") is not None and o.taxa_grp is not None and g.random() < 0.15:
+            wk["taxa_grp_col"] = rk["taxa_grp_col"] = None; skip.add("taxa_grp"); off.append("taxa_grp")
+    elif kind in VMAT_CLASSES and o.taxa_grp is not None and g.random() < 0.15:
+        for k in list(wk):
+            if k.endswith("_grp_col") or k == "taxa_grp_colnames":
+                wk[k] = rk[k] = None
+        skip.add("taxa_grp"); off.append("taxa_grp")
+    return off
+
+
+def move_columns(g, kind, df, wk):
+    """The same table with its columns in another order (value columns of wide tables keep their relative order, because
+    'the remaining columns, in order' is how those layouts define the trait / taxa axis)."""
+    cols = list(df.columns)
+    if kind in BV_CLASSES or kind in CMAT_CLASSES:
+        lab = [c_ for c_ in cols if c_ in label_columns(kind, wk)]
+        rest = [c_ for c_ in cols if c_ not in lab]
+        lab = [lab[i] for i in g.permutation(len(lab))]
+        for c_ in lab:
+            rest.insert(int(g.integers(0, len(rest) + 1)), c_)
+        new = rest
+    else:
+        new = [cols[i] for i in g.permutation(len(cols))]
+    return df[new], new != cols
+
+
+def designate(g, rk, columns, mode):
+    """Replace column names in the reader options by integer positions in ``columns`` (mode 'positions': all of them,
+    'mixed': each with probability 1/2).  Returns the new options and the list of options given by position."""
+    cols = list(columns)
+    out = dict(rk)
+    byp = []
+
+    def conv(v):
+        if isinstance(v, str) and v in cols and (mode == "positions" or g.random() < 0.5):
+            return cols.index(v), True
+        return v, False
+    for k in column_option_keys(rk):
+        v = rk[k]
+        if isinstance(v, (list, tuple)):
+            nv = [conv(e) for e in v]
+            out[k] = [e for e, _ in nv]
+            if any(b for _, b in nv):
+                byp.append(k)
+        else:
+            out[k], b = conv(v)
+            if b:
+                byp.append(k)
+    return out, byp
+
+
+def explicit_trait_cols(g, spec, rk, columns, mode):
+    """Breeding-value tables: name the trait columns explicitly (sequence of names and/or positions, in table order)
+    instead of letting the reader infer them."""
+    cols = list(columns)
+    labpos = set()
+    for v in (rk.get("taxa_col"), rk.get("taxa_grp_col")):
+        if isinstance(v, str):
+            labpos.add(cols.index(v))
+        elif v is not None:
+            labpos.add(int(v))
+    tpos = [i for i in range(len(cols)) if i not in labpos]
+    named = spec.obj.trait is not None and all(isinstance(cols[i], str) for i in tpos)
+    seq = []
+    for i in tpos:
+        by_pos = (not named) or mode == "positions" or (mode == "mixed" and g.random() < 0.5)
+        seq.append(i if by_pos else cols[i])
+    return seq
+
+
 # CSV readers that forward extra keyword arguments to pandas.read_csv: exact text round trip is selectable
 CSV_FORWARDS_KW = set(BV_CLASSES) | set(CMAT_CLASSES) | set(VMAT_CLASSES) | {"StandardGeneticMap"} | set(GMOD_CLASSES)
 
@@ -758,23 +854,42 @@ def case_roundtrip(ctx, c):
             ctx.sample({"case": c, "route": fmt, "class": kind, "write options": wk, "read options": rk, "meta": _meta_json(meta),
                         "object": src})
         cls = type(obj)
-        wit = {"write options": wk, "read options": rk, "route": route}
+        skip = set(skip)
+        off = switch_off_optional(g, spec, wk, rk, skip)
+        mode = pick(g, ["names", "names", "positions", "positions", "mixed"])     # how the reader is told where the columns are
+        moved = False
+        wit = {"write options": wk, "read options": rk, "route": route, "columns designated by": mode, "optional columns switched off": off}
         try:
             if fmt == "pandas":
                 rsite = defsite(cls, "from_pandas")
                 df = guarded(ctx, defsite(cls, "to_pandas"), fmt, coords, lambda: obj.to_pandas(**wk), wit)
+                if g.random() < 0.35:
+                    df, moved = move_columns(g, kind, df, wk)
+                columns = list(df.columns)
+                rk, byp = designate(g, rk, columns, mode) if mode != "names" else (rk, [])
+                if kind in BV_CLASSES and g.random() < 0.4:
+                    rk["trait_cols"] = explicit_trait_cols(g, spec, rk, columns, mode)
+                    byp += ["trait_cols"] if any(isinstance(e, int) for e in rk["trait_cols"]) else []
+                wit.update({"read options": rk, "columns of the table": columns, "options given by position": byp})
                 got = guarded(ctx, rsite, fmt, coords, lambda: cls.from_pandas(df, **rk), wit)
             else:
+                import pandas
                 rsite = defsite(cls, "from_pandas")  # from_csv = pandas.read_csv + from_pandas: same mechanism
                 path = os.path.join(d, pick(g, ["t.csv", "tablé 1.csv"]))
+                sepkw = {"sep": pick(g, [",", ",", "\t", ";"])}
+                wit = dict(wit, **sepkw)
+                guarded(ctx, defsite(cls, "to_csv"), fmt, coords, lambda: obj.to_csv(path, **wk, **sepkw), wit)
+                columns = list(pandas.read_csv(path, nrows=0, encoding="utf-8", **sepkw).columns)   # header as any reader sees it
+                rk, byp = designate(g, rk, columns, mode) if mode != "names" else (rk, [])
+                if kind in BV_CLASSES and g.random() < 0.4:
+                    rk["trait_cols"] = explicit_trait_cols(g, spec, rk, columns, mode)
+                    byp += ["trait_cols"] if any(isinstance(e, int) for e in rk["trait_cols"]) else []
+                wit.update({"read options": rk, "columns of the table": columns, "options given by position": byp})
                 rk2 = dict(rk)
                 if kind in CSV_FORWARDS_KW:
                     rk2["float_precision"] = "round_trip"
                 elif tol is None:
                     tol = TOL
-                sepkw = {"sep": pick(g, [",", ",", "\t", ";"])}
-                wit = dict(wit, **sepkw)
-                guarded(ctx, defsite(cls, "to_csv"), fmt, coords, lambda: obj.to_csv(path, **wk, **sepkw), wit)
                 got = guarded(ctx, defsite(cls, "from_csv"), fmt, coords, lambda: cls.from_csv(path, **rk2, **sepkw), wit)
         except Raised:
             return
@@ -809,7 +924,17 @@ def case_roundtrip(ctx, c):
                            "compared after re-alignment" % (rsite, " and ".join(moved), fmt),
                       witness=dict(wit, source=src, got=OE.observe(got)), coords=coords)
             meta = dict(meta, dcls="any")
-        judge(ctx, clause, rsite, sview, gobs, meta, coords, fmt, tol=tol, skip=skip, extra=wit, note=note)
+        # keys of the plain by-name route stay as they are; positional / moved-column routes get their own input class
+        how = None
+        if byp:
+            how = "columns designated by integer position (all or some)"
+        elif moved:
+            how = "columns of the frame in another order"
+        ctx.sumnote("table round trips with options given by position", 1 if byp else 0)
+        ctx.sumnote("table round trips with moved columns", 1 if moved else 0)
+        ctx.sumnote("table round trips with an optional label column switched off on both sides", 1 if off else 0)
+        judge(ctx, clause, rsite, sview, gobs, meta, coords, fmt, tol=tol, skip=skip, extra=wit, note=note,
+              icls_override=how)
     finally:
         shutil.rmtree(d, ignore_errors=True)
 
@@ -824,6 +949,8 @@ def case_dict_route(ctx, c, g, spec, src, fmt, d, coords):
     if obj.trait is None:
         skip.add("trait")
     rk = dict(trait_cols="infer", model_name=obj.model_name, hyperparams=_copy.deepcopy(obj.hyperparams))
+    if obj.trait is not None and g.random() < 0.4:       # trait columns named explicitly instead of inferred
+        rk["trait_cols"] = [str(t_) for t_ in obj.trait]
     ctx.case("roundtrip/%s_dict/%s" % (fmt, kind), OE.digest(src), trivial=meta["trivial"])
     if c % 97 == 0:
         ctx.sample({"case": c, "route": fmt + "_dict", "class": kind, "meta": _meta_json(meta), "object": src})
